@@ -60,7 +60,12 @@ class Stream(object):
         d.mod._decode_callback = lambda code: self.codes.append(d.code_key(code))
 
     def append(self, chunk, freq):
-        self.th.append(list(chunk), freq)
+        # through the public entry point (its input normalisation included); the thread object is ours, so it is never started
+        self.d.mod._decode_thread = self.th
+        try:
+            self.d.mod.stream_decode(list(chunk), freq)
+        finally:
+            self.d.mod._decode_thread = None
 
     def wake(self):
         self.th.stop_event = OneShot()
